@@ -290,6 +290,12 @@ func (e *Engine) SolveUnit(unitName string, uses []string) []*OblResult {
 		}
 		r.Status = "discharged"
 		solvers := map[string]bool{}
+		if d := os.Getenv("SPECV_ALLQ"); d != "" {
+			// development aid: keep the query of every path of every obligation
+			for _, j := range js {
+				saveQuery(d, fmt.Sprintf("%s_path%d_%s", o.Name, j.idx, j.res.Status), j.query)
+			}
+		}
 		for _, j := range js {
 			r.Time += j.res.Time
 			solvers[j.res.Solver] = true
